@@ -279,10 +279,6 @@ class WebSocket:
             protocol is required for `reason`.
         """
 
-        # NOTE(kgriffs): Do this first to be sure we clean things up
-        #   in the case that we are going to raise an error next.
-        await self._buffered_receiver.stop()
-
         if code is None:
             code = WSCloseCode.NORMAL
         elif not isinstance(code, int):
@@ -292,9 +288,19 @@ class WebSocket:
         elif 1015 <= code <= 1999 or 1004 <= code <= 1006:
             raise ValueError('Invalid close code. Only unreserved codes may be used.')
 
+        # NOTE: Stop receiving only once the code is known to be valid; an
+        #   accepted connection is otherwise left without its receive pump.
+        await self._buffered_receiver.stop()
+
         # NOTE(kgriffs): Only do this after we validate the code, to avoid
         #   masking errors.
         if self.closed:
+            if self._state != _WebSocketState.CLOSED:
+                # NOTE: The client has gone; remember that, as the receive
+                #   pump has been stopped and can no longer tell.
+                self._state = _WebSocketState.CLOSED
+                self._close_code = self._buffered_receiver.client_disconnected_code
+
             return
 
         response = {'type': EventType.WS_CLOSE, 'code': code}
@@ -306,7 +312,13 @@ class WebSocket:
             #   However, it is erroneously reported as missing on CPython 3.11.
             response['reason'] = reason
 
-        await self._asgi_send(response)
+        try:
+            await self._asgi_send(response)
+        except Exception:
+            # NOTE: The connection is still in the accepted state; keep
+            #   receiving so that it stays usable (and closable).
+            self._buffered_receiver.start()
+            raise
 
         self._state = _WebSocketState.CLOSED
         self._close_code = code
